@@ -346,6 +346,11 @@ static void history_generic(Rng &R, const char *which, bool wantDesc, CaseResult
                 for (int j = 0; j < k; j++) { Con c = newcon(); I.cs.push_back(c); C *nc = new C(vs[c.l], vs[c.r], c.g, false); cs.push_back(nc); solver.addConstraint(nc); ops.raw(JObj().str("op", "addConstraint").i("l", c.l).i("r", c.r).num("gap", c.g).done()); D.i(c.l); D.i(c.r); D.d(c.g); }
                 continue;
             }
+            if (op == 1 && n >= 2 && R.coin(0.3)) {  // mean-preserving spread: two variables of equal weight move apart/together by the same amount
+                int u = (int)R.ri(0, n - 1), v = (int)R.ri(0, n - 1); double k = integer ? (double)R.ri(1, 6) : R.rd(0.5, 6);
+                if (u != v && I.w[u] == I.w[v]) { for (int q = 0; q < 2; q++) { int z = q ? v : u; double nd = I.d[z] + (q ? k : -k); I.d[z] = nd; vs[z]->desiredPosition = nd; ops.raw(JObj().str("op", "setDesired").i("v", z).num("d", nd).str("note", "mean-preserving spread").done()); D.i(z); D.d(nd); } }
+                continue;
+            }
             if (op == 1) {  // move desired positions
                 int k = (int)R.ri(1, n);
                 for (int j = 0; j < k; j++) { int v = (int)R.ri(0, n - 1); double nd = integer ? (double)R.ri(0, 15) : R.rd(0, 30); I.d[v] = nd; vs[v]->desiredPosition = nd; ops.raw(JObj().str("op", "setDesired").i("v", v).num("d", nd).done()); D.i(v); D.d(nd); }
